@@ -171,8 +171,7 @@ theorem startsWith_head_ne (c : Char) (rest : Str) (p : String) (p0 : Char) (ptl
   simp [List.take, hne]
 
 theorem timedCore_mss (hA : asciiDigitsOK = true) (disc : Str) (m : Nat) (hm : 0 < m) (sec : Str) (d : Nat)
-    (hg : getDistance 8 disc = .ok (some d)) (h200 : 200 < d) (h800 : d < 800)
-    (hno : strIn disc ["800", "1500", "3000"] = false) (hsc : ∀ ch ∈ sec, ch ≠ ':')
+    (hg : getDistance 8 disc = .ok (some d)) (h200 : 200 < d) (hsc : ∀ ch ∈ sec, ch ≠ ':')
     (f : Nat × Nat × Nat) (hf : floatOf sec = some f) :
     timedCore disc (natStr m ++ ':' :: sec) = timedDecide disc (some d) 0 m f.1 f.2.1 f.2.2 := by
   obtain ⟨d0, rest, hnat, hd0, hd10⟩ := natStr_head m hm
@@ -185,11 +184,15 @@ theorem timedCore_mss (hA : asciiDigitsOK = true) (disc : Str) (m : Nat) (hm : 0
   have hsp : splitOn ':' (natStr m ++ ':' :: sec) = [natStr m, sec] :=
     splitOn_one ':' sec hsc (natStr m) (natStr_no_colon m)
   have hle : decide (d ≤ 200) = false := by simpa using h200
-  have hge : decide (d ≥ 800) = false := by simpa using h800
+  have hcol : (natStr m ++ ':' :: sec).contains ':' = true := by simp
   unfold timedCore
   rw [hg]
-  simp only [h0, h00, Bool.false_eq_true, if_false, Option.getD_some, hle, hge, Bool.and_false, Bool.false_and, hno,
-    ite_self, hsp, pyInt_natStr hA m, hf]
+  simp only [h0, h00, Bool.false_eq_true, if_false, Option.getD_some, hle, Bool.and_false, Bool.false_and, hcol,
+    Bool.not_true]
+  -- the `a:b:c → a:b.c` re-reading of 800 / 1500 / 3000 needs three fields: there are two
+  by_cases hc : (strIn disc ["800", "1500", "3000"] && !(natStr m ++ ':' :: sec).contains '.') = true
+  · simp only [hc, if_true, hsp, pyInt_natStr hA m, hf]
+  · simp only [hc, Bool.false_eq_true, if_false, hsp, pyInt_natStr hA m, hf]
 
 end Perf
 end AthlibVerif
